@@ -16,13 +16,17 @@ def run(prop, tier, workdir):
     os.makedirs(workdir, exist_ok=True)
     crate = os.path.join(workdir, "crate")
     table = gen.main(crate, os.path.realpath(vxlib.REPO))
+    # each probe belongs to one property (C16 unless it says otherwise); only those of `prop` are compiled and judged
+    table = [t for t in table if t.get("prop", "C16") == prop]
     lock = os.path.join(vxlib.REPO, "Cargo.lock")
     if os.path.exists(lock):
         shutil.copy(lock, os.path.join(crate, "Cargo.lock"))
     env = dict(os.environ, CARGO_NET_OFFLINE="true", CARGO_TERM_COLOR="never")
     env.pop("RUSTUP_TOOLCHAIN", None)
     tdir = os.path.join(vxlib.WORK, "types-target") if os.path.realpath(vxlib.REPO) == "/repo" else os.path.join(workdir, "target")
-    cmd = ["cargo", "check", "--offline", "--examples", "--keep-going", "--message-format=json", "--target-dir", tdir]
+    cmd = ["cargo", "check", "--offline", "--keep-going", "--message-format=json", "--target-dir", tdir]
+    for t in table:
+        cmd += ["--example", t["name"]]
     t0 = time.time()
     p = subprocess.run(cmd, cwd=crate, env=env, capture_output=True, text=True, timeout=1800)
     wall = time.time() - t0
@@ -57,11 +61,14 @@ def run(prop, tier, workdir):
             if t["kind"] == "negative" and not ("type annotations needed" in msg or "E0283" in msg or "E0282" in msg or "E0284" in msg):
                 infra.append("negative probe %s failed for an unrelated reason: %s" % (t["name"], msg[:800]))
                 continue
+            if t["kind"] == "alias" and not ("mismatched types" in msg or "E0308" in msg):
+                infra.append("alias probe %s failed for an unrelated reason: %s" % (t["name"], msg[:800]))
+                continue
             if t["kind"] == "positive" and not ("cannot be sent between threads" in msg or "cannot be shared between threads" in msg or "E0277" in msg):
                 infra.append("positive probe %s failed for an unrelated reason: %s" % (t["name"], msg[:800]))
                 continue
             src = os.path.join(crate, "examples", t["name"] + ".rs")
-            failed.append({"name": "types::%s::%s" % (t["kind"], t["name"]), "tags": ["C16"], "kind": "type probe (%s)" % t["kind"], "rendered": msg,
+            failed.append({"name": "types::%s::%s" % (t["kind"], t["name"]), "tags": [t.get("prop", "C16")], "kind": "type probe (%s)" % t["kind"], "rendered": msg,
                            "clause": t["doc"], "counterexample": {"program": open(src).read(), "how_to_run": "place under examples/ of a crate depending on the repository and run `cargo check --example %s`: it must compile" % t["name"]}})
         if len(samples) < 4:
             samples.append({"obligation": "types::%s::%s" % (t["kind"], t["name"]), "what": t["doc"], "status": "discharged" if ok else "FAILED"})
